@@ -13,6 +13,7 @@
 #include <cstdio>
 #include <cstdlib>
 #include <cstring>
+#include <ctime>
 #include <cxxabi.h>
 #include <exception>
 #include <map>
@@ -237,10 +238,15 @@ inline void installCrashHandlers()
 }
 
 // Watchdog: a single call that runs longer than the budget becomes a "Hang"
-// event and the process ends (exit 0: the trace is the verdict).
+// event and the process ends (exit 0: the trace is the verdict).  The budget is
+// measured in CPU time of the process (the drivers are single-threaded, the
+// watchdog thread sleeps), so a loaded machine does not turn a slow call into
+// a false "Hang"; a call that blocks without using the CPU is caught by a wall
+// clock backstop of 20 x the budget.
 class Watchdog
 {
-  std::atomic<long long> deadline_; // ms since start, 0 = disarmed
+  std::atomic<long long> deadlineCpu_;  // ms of process CPU time, 0 = disarmed
+  std::atomic<long long> deadlineWall_; // ms since start
   std::atomic<long> tag_;
   std::thread th_;
   std::chrono::steady_clock::time_point t0_;
@@ -248,17 +254,24 @@ class Watchdog
   {
     return std::chrono::duration_cast<std::chrono::milliseconds>(std::chrono::steady_clock::now() - t0_).count();
   }
+  static long long cpuNow()
+  {
+    struct timespec ts;
+    if (clock_gettime(CLOCK_PROCESS_CPUTIME_ID, &ts) != 0) return 0;
+    return static_cast<long long>(ts.tv_sec) * 1000 + ts.tv_nsec / 1000000;
+  }
 
 public:
-  Watchdog() : deadline_(0), tag_(0), th_(), t0_(std::chrono::steady_clock::now())
+  Watchdog() : deadlineCpu_(0), deadlineWall_(0), tag_(0), th_(), t0_(std::chrono::steady_clock::now())
   {
     th_ = std::thread([this]() {
       for (;;)
       {
         std::this_thread::sleep_for(std::chrono::milliseconds(50));
-        long long d = deadline_.load();
-        if (d > 0 && now() > d)
+        long long d = deadlineCpu_.load();
+        if (d > 0 && (cpuNow() > d || now() > deadlineWall_.load()))
         {
+          if (deadlineCpu_.load() != d) continue; // re-armed meanwhile
           Tracer& t = tracer();
           t.flush();
           char buf[96];
@@ -277,9 +290,10 @@ public:
   void arm(long long ms, long tag)
   {
     tag_.store(tag);
-    deadline_.store(now() + ms);
+    deadlineWall_.store(now() + 20 * ms);
+    deadlineCpu_.store(cpuNow() + ms);
   }
-  void disarm() { deadline_.store(0); }
+  void disarm() { deadlineCpu_.store(0); }
 };
 
 inline Watchdog& watchdog()
